@@ -7,7 +7,7 @@ import Glom.Model.C04Env
   case:
     "classes":  [{"name":n,"base":b,"shape":Shape|null,"falsy":bool}…]   user classes (base: user / builtin / glom class)
     "exc":      {"cls":n,"init":[AVal…],"kw":bool,"set_args":[AVal…]|null}  the prepared exception object
-    "spec":     Sp      "ok"|"fault"|"badPath"|"badMatch"|{"tup":[…]}|{"dct":[…]}|{"lst":Sp}|{"frame":Sp}
+    "spec":     Sp      "ok"|"fault"|"badPath"|"badMatch"|{"tup":[…]}|{"dct":[…]}|{"lst":Sp}|{"frame":Sp}|{"first":Sp}
                         |{"coal":[…],"skip":[names]|null,"dflt":bool}
     "settings": {"default":bool,"skip":[names]|null,"debug":bool|null}
     "recorder": bool    the whole spec is wrapped in a recording frame
@@ -121,6 +121,7 @@ partial def spOfJson (j : Json) : Except String Sp :=
     else if let .ok xs := j.getObjVal? "dct" then return .dct (← (← arr xs).mapM spOfJson)
     else if let .ok x := j.getObjVal? "lst" then return .lst (← spOfJson x)
     else if let .ok x := j.getObjVal? "frame" then return .frame (← spOfJson x)
+    else if let .ok x := j.getObjVal? "first" then return .first (← spOfJson x)
     else if let .ok xs := j.getObjVal? "coal" then
       let skip ← (match j.getObjVal? "skip" with
         | .ok .null => pure none
